@@ -9,7 +9,7 @@ event history of ONE rank of a real run through `YgmVerif.Cache.step` (variant `
   reduce:  `<variant> <nslots> <opid> <me> <k:owner,k:owner,...> | <tokens>`     opid 0 sum 1 max 2 xor
            `hop <p> <me> <dest>`  ->  next NLNR hop
   tokens:  `I k v` insert/reduce begins   `P k v` the real code packed (k, v)   `R` send returned
-           `D` insert returned   `FB` / `FE` pre-barrier callback begins / ends
+           `D` insert returned   `FB` / `FE` pre-barrier callback begins / ends   `B` barrier() returned
            `A k v` the owner executes a container operation (reduce only)
   answer:  `ok reg=<0|1> stack=<n> cache=<slot:k:v,..> out=<c:k:v,..> stored=<k:v,..>`
            (`c` = 1 for a container operation, 0 for an adapter message; out oldest first)
@@ -86,6 +86,7 @@ partial def replay (M : Machine) (op : Nat → Nat → Nat) (cmpVal : Bool) (a :
   | "D" :: rest => simple .done "D" rest
   | "FB" :: rest => simple .fb "FB" rest
   | "FE" :: rest => simple .fe "FE" rest
+  | "B" :: rest => simple .bar "B" rest
   | t :: _ => s!"bad-op {t}"
 where
   simple (l : Label Nat) (name : String) (rest : List String) : String :=
